@@ -179,16 +179,21 @@ PROPS = {
     },
     "C04": {
         "level": "other",
-        "units": [],
+        "units": ["nameorder"],
         "kani": [
             {"group": "g0", "name": "c04_label_order_eq_hash_len8_bounded", "kind": "bounded", "tier": "quick", "timeout": 300,
              "bound": "two labels of at most 8 octets, all contents",
              "what": "Label: cmp == RFC 4034 6.1 order on lower-cased octets; == <=> cmp Equal; partial_cmp == Some(cmp); antisymmetry; "
                      "equal labels write the same bytes to any Hasher; composed_cmp/lowercase_composed_cmp == order of [len]++octets"},
             {"group": "g0", "name": "c04_label_order_eq_hash_len63", "kind": "complete", "tier": "thorough", "timeout": 3000,
-             "what": "the same for two labels of any length up to the type's 63-octet limit (complete for Label)"},
+             "what": "the same for two labels of any length up to the type's 63-octet limit (complete for Label); this discharges the "
+                     "contract unit nameorder assumes for Ord for Label"},
             {"group": "g0", "name": "c04_label_order_transitive_bounded", "kind": "bounded", "tier": "quick",
              "bound": "three labels of at most 4 octets", "what": "transitivity of <= and of == on labels"},
+            {"group": "g0", "name": "c04_name_eq_fixed_layout_bounded", "kind": "bounded", "tier": "quick",
+             "bound": "two flat names with the fixed label layout 1+2 content octets and the root label; all content octets",
+             "what": "Name: name_eq and == on the compiled code (flat-slice fast path) equal label-wise equality up to ASCII case -- "
+                     "the compiled counterpart of unit nameorder's name_eq contract, independent of how the comparison is written"},
             {"group": "g0", "name": "c04_record_eq_implies_hash_eq", "kind": "complete", "tier": "quick",
              "what": "Record<u8, A>: == <=> (class, data) equal, for all classes, TTL pairs and addresses; equal records write the same "
                      "bytes to any Hasher (the generic Hash impl does not look into the owner type)"},
@@ -196,13 +201,31 @@ PROPS = {
         "replays": [
             {"bin": "d7_record_hash_ttl", "finding": "D7"},
         ],
-        "explanation": "bounded/complete contract checking with Kani on the compiled generic code (the comparison code is written with "
-                       "iterator adapters, outside Verus): label order, equality and hash coherence and the RFC 4034 section 6.1 "
-                       "label order, complete up to the 63-octet limit in the thorough tier; Record Eq/Hash coherence over all "
-                       "classes, TTLs and A data.",
-        "not_covered": "Names across representations (flat, compressed in a message, chained): name_eq/name_cmp/Hash for ToName and "
-                       "canonical name order (CBMC does not terminate on 12-octet names within the budget), CharStr, canonical "
+        "explanation": "Names (Verus unit nameorder, real text of the provided methods of ToName in base/name/traits.rs, for every "
+                       "implementor, i.e. every representation -- flat, compressed ParsedName, chain): name_eq == label-wise equality "
+                       "up to ASCII case on both of its paths (lemma: comparing flat wire forms octet by octet up to case decides "
+                       "exactly that, because length octets are below the letters); name_cmp == the RFC 4034 section 6.1 order "
+                       "(most significant label first, labels as lower-cased left-justified octet strings); composed_cmp == "
+                       "octet-wise order of the uncompressed wire forms and lowercase_composed_cmp == octet-wise order of the "
+                       "canonical wire forms, with their unreachable!() arms proved unreachable for absolute names; "
+                       "Label::composed_cmp / lowercase_composed_cmp (real text) == octet-wise order of the label's wire form. "
+                       "Laws proved over the reference definitions the code is tied to: the name order is antisymmetric, "
+                       "transitive, and Equal exactly on names that are name_eq (so order, equality and representation cannot "
+                       "disagree). Labels, records (Kani on the compiled generic code, whose comparison code is written with "
+                       "iterator adapters outside Verus): label order, equality and hash coherence and the RFC 4034 label order, "
+                       "complete up to the 63-octet limit in the thorough tier; Record Eq/Hash coherence over all classes, TTLs "
+                       "and A data.",
+        "not_covered": "Hash for names (for-loop over a label iterator; CBMC does not finish on names), the relative-name versions "
+                       "(ToRelativeName), the iterators themselves (iter_labels/as_flat_slice of Name, ParsedName, Chain are assumed "
+                       "to enumerate labels() -- ParsedName's iterator is under contract in C01's unit nameparse), CharStr, canonical "
                        "ordering of record data per type versus canonical wire form, Record::canonical_cmp.",
+        "assumptions": [
+            "<[u8]>::eq_ignore_ascii_case (core): same length and octets equal after ASCII lower-casing",
+            "<[u8] as Ord>::cmp (core): left-justified octet-string order (axiom_slice_cmp_octets)",
+            "Ord for Label == RFC 4034 label order (iterator adapters; discharged on the compiled code by Kani c04_label_order_eq_hash_len63, thorough tier)",
+            "Iterator::eq over label iterators with PartialEq for Label: element-wise ci equality and same number of elements",
+            "ToName implementors: iter_labels() enumerates labels(), as_flat_slice() (when Some) is the concatenated wire form of labels(); labels are at most 63 octets; absolute names end with the only empty label (C03)",
+        ],
     },
     "C10": {
         "level": "other",
